@@ -354,6 +354,8 @@ func (v *Visitor) Visit(s *df.AnalyzerState, source df.NodeWithTrace) {
 				if !callSiteFromCallStack.Graph().Constructed {
 					v.onDemandIntraProcedural(s, callSiteFromCallStack.Graph())
 				}
+				// The call node itself is not visited: the instructions its result flows to must be checked here
+				v.checkEscapeAtReturnSite(s, callSiteFromCallStack, cur.Trace.Parent)
 				for nextNode, edgeInfos := range callSiteFromCallStack.Out() {
 					for _, edgeInfo := range edgeInfos {
 						if !(graphNode.Index() >= 0 && edgeInfo.Index >= 0 && graphNode.Index() != edgeInfo.Index) {
@@ -386,6 +388,7 @@ func (v *Visitor) Visit(s *df.AnalyzerState, source df.NodeWithTrace) {
 					if !callSite.Graph().Constructed {
 						v.onDemandIntraProcedural(s, callSite.Graph())
 					}
+					v.checkEscapeAtReturnSite(s, callSite, nil)
 					for nextNode, edgeInfos := range callSite.Out() {
 						for _, edgeInfo := range edgeInfos {
 							nextNodeWithTrace := df.NodeWithTrace{
@@ -868,6 +871,12 @@ func (v *Visitor) manageEscapeContexts(s *df.AnalyzerState, cur *df.VisitorNode,
 		nKey = handle.Key()
 	}
 	escapeGraph := v.escapeGraphs[f][nKey]
+	if escapeGraph == nil && nextTrace == nil && s.EscapeAnalysisState.IsSummarized(f) {
+		// The node is reached without any calling context (e.g. through a global): no assumption can be made on the
+		// context in which f is called.
+		v.storeEscapeGraphInContext(s, f, nKey, s.EscapeAnalysisState.ComputeArbitraryContext(f))
+		escapeGraph = v.escapeGraphs[f][nKey]
+	}
 	if escapeGraph != nil {
 		v.checkEscape(s, nextNode, escapeGraph)
 	} else if s.EscapeAnalysisState.IsSummarized(f) {
@@ -901,6 +910,33 @@ func (v *Visitor) checkEscape(s *df.AnalyzerState, node df.GraphNode, escapeInfo
 					instr, node.Graph().Parent, rationale.String(), s.Program.Fset.Position(instr.Pos())))
 		}
 	}
+}
+
+// checkEscapeAtReturnSite checks the locality of the instructions marked for the result of the call callSite, in the
+// escape context of the caller identified by callerTrace. When the traversal returns from a callee (a ReturnValNode),
+// it continues with the successors of the call node without visiting the call node itself; the marks of the call node
+// (the instructions the returned data flows to inside the caller, e.g. a store into shared memory) would otherwise
+// never be checked.
+func (v *Visitor) checkEscapeAtReturnSite(s *df.AnalyzerState, callSite *df.CallNode, callerTrace *df.CallStack) {
+	if !s.Config.UseEscapeAnalysis || callSite == nil {
+		return
+	}
+	f := callSite.Graph().Parent
+	key := callerTrace.Key()
+	if handle := callerTrace.GetLassoHandle(); handle != nil {
+		key = handle.Key()
+	}
+	escapeGraph := v.escapeGraphs[f][key]
+	if escapeGraph == nil {
+		if !s.EscapeAnalysisState.IsSummarized(f) {
+			return
+		}
+		// The caller has not been entered in that context by the traversal (e.g. the source is in the callee): no
+		// assumption can be made on the caller's context.
+		v.storeEscapeGraphInContext(s, f, key, s.EscapeAnalysisState.ComputeArbitraryContext(f))
+		escapeGraph = v.escapeGraphs[f][key]
+	}
+	v.checkEscape(s, callSite, escapeGraph)
 }
 
 // storeEscapeGraph computes the escape graph of callee in the context where it is called with stack. stack.Label should
